@@ -881,16 +881,16 @@ func c13R3(r *Report) {
 				// the nil edge needs: len(t.trackers) == 1 && len(t.trackers[0]) == 1   (or len(t.trackers) == 0)
 				outer, inner := false, false
 				for _, g := range guardsOnEdge(pb, ph.Block()) {
-					g = g.norm()
-					bo, ok := g.Cond.(*ssa.BinOp)
-					if !ok || !g.Pol || bo.Op != token.EQL {
+					// len(…) == k on this edge, however it is spelled (== taken, != not taken)
+					op, cx, cy, ok := cmpFact(g)
+					if !ok || op != token.EQL {
 						continue
 					}
-					k, okk := constInt(bo.Y)
+					k, okk := constInt(cy)
 					if !okk || k > 1 {
 						continue
 					}
-					c, okc := bo.X.(*ssa.Call)
+					c, okc := cx.(*ssa.Call)
 					if !okc {
 						continue
 					}
